@@ -86,6 +86,8 @@ type streamCase struct {
 	write func(w io.WriteSeeker) error
 	read  func(r io.Reader) (string, error) // canonical result
 	want  string
+	// prefill: the writer already holds this many bytes and is positioned at its start (a record rewritten in place)
+	prefill int
 }
 
 func lenTypes() map[string]serializer.SeriLengthPrefixType {
@@ -190,6 +192,45 @@ func streamCases() []streamCase {
 				}})
 		}
 	}
+	// a record (marker, collection, marker) written over existing bytes: everything must land where the write
+	// position is, not at the end of the writer
+	for ln, lt := range lenTypes() {
+		ln, lt := ln, lt
+		want := []uint16{0x0102, 0x0304}
+		cases = append(cases, streamCase{name: "in-place record: Write+WriteCollection+Write(" + ln + ")", prefill: 40, want: fmt.Sprint(0xAA, want, 0xBB),
+			write: func(w io.WriteSeeker) error {
+				if err := stream.Write(w, uint8(0xAA)); err != nil {
+					return err
+				}
+				if err := stream.WriteCollection(w, lt, func() (int, error) {
+					for _, x := range want {
+						if err := stream.Write(w, x); err != nil {
+							return 0, err
+						}
+					}
+					return len(want), nil
+				}); err != nil {
+					return err
+				}
+				return stream.Write(w, uint8(0xBB))
+			},
+			read: func(r io.Reader) (string, error) {
+				a, err := stream.Read[uint8](r)
+				if err != nil {
+					return "", err
+				}
+				got := make([]uint16, 0)
+				if err := stream.ReadCollection(r, lt, func(int) error {
+					x, err := stream.Read[uint16](r)
+					got = append(got, x)
+					return err
+				}); err != nil {
+					return "", err
+				}
+				b, err := stream.Read[uint8](r)
+				return fmt.Sprint(int(a), got, int(b)), err
+			}})
+	}
 	sort.Slice(cases, func(i, j int) bool { return cases[i].name < cases[j].name })
 	return cases
 }
@@ -205,13 +246,19 @@ func streamPart() *cli.Part {
 		exhaustive := true
 		var samples []any
 		for _, sc := range streamCases() {
-			buf := stream.NewByteBuffer()
+			buf := stream.NewByteBuffer(sc.prefill)
 			if err := sc.write(buf); err != nil {
 				viol["stream|write-error|"+sc.name] = &cli.Violation{Part: "stream", Engine: "I", Signature: "stream|write-error|" + sc.name, Message: err.Error()}
 				continue
 			}
 			data, _ := buf.Bytes()
 			data = append([]byte{}, data...)
+			if sc.prefill > 0 {
+				// the record ends at the write position; what lies behind it is old content
+				if pos, err := buf.Seek(0, io.SeekCurrent); err == nil && int(pos) <= len(data) {
+					data = data[:pos]
+				}
+			}
 			for _, eofLast := range []bool{false, true} {
 				complete := compositions(len(data), maxN, func(chunks []int) {
 					evals++
